@@ -66,12 +66,17 @@ def effective(cfg):
 def _task(rng, to, gates=True):
     k = rng.random()
     if k < 0.45:
-        return ["enq", "ret", 0]
-    if k < 0.6:
-        return ["enq", "raise", 0]
-    if k < 0.85 and gates:
-        return ["enq", "gate", rng.randrange(2)]
-    return ["enq", "sleep", rng.choice([to / 2, to, 2 * to, 1.0])]
+        op = ["enq", "ret", 0]
+    elif k < 0.6:
+        op = ["enq", "raise", 0]
+    elif k < 0.85 and gates:
+        op = ["enq", "gate", rng.randrange(2)]
+    else:
+        op = ["enq", "sleep", rng.choice([to / 2, to, 2 * to, 1.0])]
+    if rng.random() < 0.2:
+        # the task is not a plain function: functools.partial or a callable object
+        op.append(rng.choice(["partial", "object"]))
+    return op
 
 
 def gen_mixed(rng, focus=None):
@@ -106,7 +111,7 @@ def gen_mixed(rng, focus=None):
             if running and rng.random() < 0.5:
                 ctl.append(["join", None])
             else:
-                ctl.append(["join", rng.choice([0.5, to, 2 * to])])
+                ctl.append(["join", rng.choice([0, 0.5, to, 2 * to])])
         elif name == "sleep":
             ctl.append(["sleep", rng.choice([to / 2, to, 2 * to, 3.0])])
         else:
@@ -123,7 +128,7 @@ def gen_mixed(rng, focus=None):
             elif k < 0.65 and n:
                 ops.append(["res", rng.randrange(n), rng.choice([0, to / 2, to, 4 * to])])
             elif k < 0.8:
-                ops.append(["join", rng.choice([0.5, to, 2 * to])])
+                ops.append(["join", rng.choice([0, 0.5, to, 2 * to])])
             elif k < 0.92:
                 ops.append(["sleep", rng.choice([to / 2, to, 2 * to])])
             else:
@@ -259,6 +264,8 @@ def parse(program, log):
                 w["cur"] = None
         elif kind == "final":
             h.finals[ev[3]] = (ev[4], ev[5])
+            if ev[3] in h.tasks:
+                h.tasks[ev[3]]["final_idx"] = idx
         elif kind == "progress":
             h.progress[ev[3]] = ev[4]
         elif kind == "ctor.error":
@@ -312,7 +319,9 @@ def parse(program, log):
 
 def exempt(h, t):
     """Could a stop() have discarded the task before it began?"""
-    b = t["begins"][0] if t["begins"] else INF
+    # a task that never began is judged when the epilogue looks at its future ("final"):
+    # only a stop() called before that point can have discarded it
+    b = t["begins"][0] if t["begins"] else t.get("final_idx", INF)
     for sc, sr in h.stops:
         if t["enq_call"] < sr and sc < b:
             return True
